@@ -21,6 +21,30 @@ CLAIMED = {
         "is validated, not derived (differential execution of harness vs compiled Lean driver); dev profile only.",
         "Lean 4 proof (induction over copy loops, byte-mask lemmas) + model/implementation correspondence stream",
     ),
+    "C20": (
+        "DESIGN.md 5 (C20)",
+        "Lean 4 theorems about a byte-level mirror of the DER primitives (basic/distinguished/mod.rs, rw/der.rs): for every "
+        "u64 length, every tag of the four classes with number < 64 (exactly: round trip iff number < 64), every i64/u64, "
+        "both booleans (any non-zero octet reads as true) and every enumerated index, read (write x ++ post) = ok (x, post), "
+        "so exactly the written bytes are consumed and values compose back-to-back; the readers never panic on any input. "
+        "All statements unbounded and full strength. Tied to the code by the `der` stream (round trips and hostile reads).",
+        "Trusted: Lean kernel, standard axioms only; hand-written mirror validated by differential execution; error classes "
+        "of protocol::basic are recognised from their Debug text; dev profile only.",
+        "Lean 4 proof (case split on byte counts, omega) + correspondence stream + independent Python oracle",
+    ),
+    "C15": (
+        "DESIGN.md 5 (C15)",
+        "Lean 4 theorems about a mirror of the two INTEGER-to-Rust-type cascades (asn1rs-model/src/rust.rs) with all casts, "
+        "the parser widening, integer_range_str, attribute text and walker constants: for all i64 bounds the chosen type holds "
+        "every permitted value (holds_iff gives the exact region: min given, or extensible with negative max), is the "
+        "narrowest standard type of either signedness, extensible ranges are 64-bit, accessors/constants equal declared bounds. "
+        "Where the code violates the property ((MIN..ub) and unconstrained INTEGER become unsigned) the full statement is kept, "
+        "refuted on a witness, and the _partial theorem carries the excluded region; both are listed known findings. "
+        "Tied to the real pipeline (tokenizer, parser, resolver, to_rust, RustCodeGenerator, AsnDefWriter) exhaustively over B x B.",
+        "Trusted: Lean kernel, standard axioms; thresholds I8_MAX..U32_MAX from the translator; mirror validated by the "
+        "`inttype` stream (about 3*10^5 requests per quick run); string extraction from generated code in harness/src/inttype.rs.",
+        "Lean 4 proof (omega after unfolding the cascades) + exhaustive correspondence over the boundary set",
+    ),
 }
 
 NOT_YET = "model and first theorem not built yet in this revision (work in progress; see DESIGN.md 8 for the order of work)"
